@@ -210,6 +210,9 @@ func (f *Frame) checkReturn(e Exit) {
 	}
 	env := f.envPost(e.St, f.resultBindings(e))
 	for i, en := range con.Ensures {
+		if en.Defines {
+			continue
+		}
 		po := vc.obligeLater("post", fmt.Sprintf("%s#post:%d@%s", name, i+1, anchor), e.Cond, env.evalBool(en.E), f.pos(e.Pos), en.Src)
 		if len(en.Only) > 0 {
 			po.Props = en.Only
